@@ -243,7 +243,7 @@ def _run_case(case, R, mon):
                                 s = float(call(a, c)) + float(call(c, b))
                             R.hit("additivity")
                             qtol2 = qtol + (mon.n - q1) * QUAD_TOL * max(1.0, abs(obs))
-                            if abs(s - obs) > 1e-9 * abs(obs) + 1e-11 * sc + qtol2:
+                            if not (abs(s - obs) <= 1e-9 * abs(obs) + 1e-11 * sc + qtol2):
                                 R.violation(key_base + "-additivity", f"{label_t}: nu.{mname} not additive: [{a},{c}] + [{c},{b}] = "
                                             f"{s!r} but [{a},{b}] = {obs!r}", {"spec": spec, "trunc": trunc, "a": a, "c": c, "b": b})
                         except Exception as exc:  # noqa: BLE001
